@@ -58,7 +58,14 @@ func Hist(cases []*Case, depth, menuN int, sizes []int, us []string, variants []
 		g := c.G.Clone()
 		g.ID = "HIST/" + g.ID
 		menu := Menu(g, c.Sigma, 4, menuN)
-		out = append(out, &Case{Family: "HIST-" + c.Family, G: g, Extra: menu, Depth: depth, Sizes: sizes, Us: us, Variants: variants, Mode: spec.ModeHistory})
+		// up to two other rules are also used as explicit entry points within histories
+		var entries []string
+		for _, r := range g.Rules[1:] {
+			if len(entries) < 2 {
+				entries = append(entries, r.Name)
+			}
+		}
+		out = append(out, &Case{Family: "HIST-" + c.Family, G: g, Extra: menu, Entries: entries, Depth: depth, Sizes: sizes, Us: us, Variants: variants, Mode: spec.ModeHistory})
 	}
 	return out
 }
